@@ -68,13 +68,6 @@ theorem dropWhile_ns_of_attr (atK : List HTree) (h : ∀ c ∈ atK, c.value.cate
     have hd : (Category.attribute == Category.namespace) = false := by decide
     simp [List.dropWhile, this, hd]
 
-theorem takeWhile_all {α : Type} (p : α → Bool) (l : List α) (h : ∀ a ∈ l, p a = true) :
-    l.takeWhile p = l := by
-  induction l with
-  | nil => rfl
-  | cons a as ih =>
-    simp [List.takeWhile, h a (List.mem_cons_self ..), ih (fun b hb => h b (List.mem_cons_of_mem _ hb))]
-
 theorem takeWhile_ns_of_attr (atK : List HTree) (h : ∀ c ∈ atK, c.value.category = .attribute) :
     atK.takeWhile (fun c => c.value.category == .namespace) = [] := by
   cases atK with
